@@ -196,11 +196,11 @@ prop(
           "xor 0xFF) in the first / middle / last chunk of every (step family, sender): upgrade, multiply, duplicate multiply, "
           "propagate-u-w, reveal-r, check-zero, reveal. Oracle: honest runs validate and open a*b*a on all helpers; with a fault some honest "
           "helper must fail (Fp31: undetected runs counted against a binomial allowance for p = 2/31). distinct = (field, step family, "
-          "sender, position class, pattern class)"),
+          "sender, position class, pattern class). adaptive adversary: eps on the [a*b] message and r_old*eps on the [r*a*b] message of a record, with r_old the MAC key that the validation of another batch has opened (2-3 batches of 2/4/16 records, every helper as attacker): must be rejected, the MAC key has to be per batch"),
     assumptions=["detection failure probability <= 2/|F| per run is ignored for the 32-bit and 255-bit fields"],
     shards={"quick": 16, "thorough": 16},
     min_evaluations={"quick": 150, "thorough": 1500},
-    must_see=[("deviation_detected", 100), ("step_families_faulted", 20), ("honest_runs_validated_and_opened", 5), ("lane_attack_detected", 5), ("reveal_flavours_faulted", 6), ("altered_copy_rejected", 30)],
+    must_see=[("deviation_detected", 100), ("step_families_faulted", 20), ("honest_runs_validated_and_opened", 5), ("lane_attack_detected", 5), ("reveal_flavours_faulted", 6), ("altered_copy_rejected", 30), ("opened_key_attack_detected", 40), ("opened_key_honest_controls_accepted", 8)],
     watchdog_s={"quick": 1200, "thorough": 7200},
 )
 
